@@ -83,9 +83,10 @@ import NeumannModel.Parse.Exec
                                     (absent) | `<n>` (integer literal) | `x` (any other expression); rows = `-` |
                                     rows joined by `;`, row = `_` | cells joined by `,`, cell = `<col>=<int>|n`
                                     (only the columns the projection kept; strings as order-isomorphic integers;
-                                    a row's identity is its position).  Answer `rows <pos>,<pos>,…` | `rows -` |
-                                    `outside` (a sort column that is missing in one row and NULL in another:
-                                    the closure of sort_rows is not an order there, Exec.consistent)
+                                    a row's identity is its position).  Answer `rows <pos>,<pos>,…` | `rows -`
+                                    for EVERY row list (a sort column that is missing in one row and NULL in
+                                    another included: /repo 1133d8d8 made the closure of sort_rows a total
+                                    preorder on all rows, ExecProps.order_by_comparator_is_a_total_preorder)
             xlist <limit> <offset> <n>   NODE LIST / EDGE LIST over an engine answer of n items: `items <pos>,…` |
                                     `items -` | `error` (a LIMIT / OFFSET that is not an integer literal)
             xtake <limit> <n>       FIND … WHERE … [LIMIT] / SHOW EMBEDDINGS [LIMIT]: `items …` | `error`
@@ -665,8 +666,7 @@ def parseStep (_ : Unit) (line : String) : Unit × String :=
             readOrder order, readClause limit, readClause offset, readRows rows with
       | some a, some o, some l, some f, some rs =>
         -- aggregate selects: the harness sends the aggregate rows themselves as `rows`
-        if !a && !Exec.consistent o rs then ((), "outside")
-        else ((), showItems "rows" ((Exec.execSelect { aggregate := a, order := o, limit := l, offset := f } rs rs).map (·.id)))
+        ((), showItems "rows" ((Exec.execSelect { aggregate := a, order := o, limit := l, offset := f } rs rs).map (·.id)))
       | _, _, _, _, _ => bad
   | ["xlist", limit, offset, n] =>
       match readClause limit, readClause offset, n.toNat? with
